@@ -6,7 +6,7 @@ import ast
 from ..cfg import CFG
 from ..core import AnalysisError, own_nodes, short, unparse
 from ..modelfacts import ModelFacts
-from ..rules import isdrules, live, pur, shape
+from ..rules import trav, isdrules, live, pur, shape
 from ..typing_lite import Typer
 from . import common
 
@@ -22,7 +22,7 @@ EXPLANATION = (
 )
 RULE_TEXT = "per mutator call / mutating call argument, per copy_to variant x field, per early return, per module-level store"
 UNDECIDED = ["equality of cached and uncached results over all documents and times", "equality of repeated calls as values",
-             "the IMSC writer (checked for source mutation in C05's scope only through shared model facts)"]
+             "source mutation through functions outside the tabled entry points' call trees"]
 TRUSTED = ["provenance abstraction of rules/pur.py", "entry-point role table: doc parameters of the public entry points are the source"]
 
 ENTRY_ROLES = {
@@ -49,9 +49,21 @@ COPY_REQUIRED = {
 def build_provenance(ctx, extra_roles=None):
   ix = ctx.ix
   fs = common.funcs(ctx, MODS)
+  # the IMSC writer: every from_model* function of imsc/elements.py and imsc/writer.py receives source objects in its model_* parameters
+  imsc_roles = {}
+  for mn in ("ttconv.imsc.writer", "ttconv.imsc.elements"):
+    for g in ix.funcs_in(mn):
+      if g.name.startswith("from_model"):
+        fs.append(g)
+        for p_ in g.params:
+          if p_.startswith("model_"):
+            imsc_roles[(g.qualname, p_)] = pur.SOURCE
+  if len(imsc_roles) < 15:
+    raise AnalysisError(f"IMSC writer: only {len(imsc_roles)} from_model parameters found (anchor changed)")
   mf = ModelFacts(ix)
   ty = Typer(ix)
   roles = dict(ENTRY_ROLES)
+  roles.update(imsc_roles)
   if extra_roles:
     roles.update(extra_roles)
   for k in roles:
@@ -100,6 +112,7 @@ def check_region_background(ctx):
             "animation steps are consulted before any `return False`",
             "_region_always_has_background concludes from the specified styles alone that a region paints nothing: a region whose background is "
             "made visible by a set step is dropped from cached snapshots")
+  trav.check_anim_cover(ctx, f, f.params[0])
   # and the content interval uses it only to *extend* the interval
   st = ix.func("ttconv.isd:ISD.significant_times.<locals>.compute_sig_times")
   ctx.check("_region_always_has_background(element)" in unparse(st.node), "ORD-anim", f"{st.qualname}|regions with background extend the content interval",
@@ -156,3 +169,4 @@ def run(ctx):
   from ..selfcheck import pur_fixture_matches
   ctx.check(pur_fixture_matches(ix), "PUR", "fixture|mutation of a source element is detected", "ttverif/fixtures/source_mutation.py",
             "the rule still matches its positive fixture", "PUR no longer matches its positive fixture (rule broken)")
+  common.check_history_independence(ctx, common.CORE + common.WRITERS + common.ISD_FILTERS + ["ttconv.imsc.elements", "ttconv.imsc.attributes", "ttconv.imsc.style_properties"])
